@@ -8,6 +8,7 @@ Output: harness/src/zoo_gen.rs containing, for every descriptor, the Rust item w
 Usage: genzoo.py curated            (writes harness/src/zoo_gen.rs from the curated corpus)
        genzoo.py random SEED N      (adds N generated types / families from SEED)
 """
+import os
 import sys, os, random
 
 U32MAX = 4294967295
@@ -552,6 +553,12 @@ def curated():
     T.append(E("ClosedRangeEnum", [Vr("A", [F("gone", "u8", ver=(0, 0)), F("b", "u8")], kind="named"), Vr("B", [F("x", "u8"), F("y", "u8")], kind="named")],
                repr="u8", versions=(0, 1), tags=("closed-range-plain", "ignore"), containers=("vec", "arr")))
     T.append(S("ClosedRangePlain", [F("a", "u8"), F("gone", "u8", ver=(0, 0)), F("b", "u8")], versions=(0, 1), repr="C", tags=("closed-range-plain", "ignore"), containers=("vec", "arr")))
+    # fields that were added and later removed: a two-sided version range whose lower bound is above 0
+    T.append(S("TwoSidedPlain", [F("a", "u8"), F("mid", "u16", ver=(1, 2)), F("b", "u32")], versions=(0, 1, 2, 3), tags=("closed-range-plain", "ignore"), containers=("vec",)))
+    T.append(S("TwoSidedRem", [F("a", "u32"), F("gone", "u32", ver=(1, 1), removed="Removed"), F("b", "u32")], versions=(0, 1, 2), repr="C", containers=("vec", "arr")))
+    T.append(S("TwoSidedAbi", [F("a", "u32"), F("gone", "u32", ver=(1, 2), removed="AbiRemoved"), F("b", "u32")], versions=(0, 1, 2, 3), repr="C", containers=("vec", "arr")))
+    T.append(E("TwoSidedEnum", [Vr("A", [F("x", "u16"), F("gone", "u16", ver=(1, 1), removed="Removed"), F("y", "u16")], kind="named"),
+                                Vr("B", [F("x", "u16"), F("y", "u16")], kind="named")], repr="u16", versions=(0, 1, 2), containers=("vec",)))
     return T
 
 
@@ -582,6 +589,12 @@ def families():
         [E("T", [Vr("A"), Vr("B", [F("x0", "u32")])])],
         [E("T", [Vr("A"), Vr("B", [F("x0", "u32")]), Vr("C", [F("x0", "String")], ver=(1, None))])],
         [E("T", [Vr("A"), Vr("B", [F("x0", "u32"), F("x1", "u8", ver=(2, None), default_val="3")]), Vr("C", [F("x0", "String")], ver=(1, None)), Vr("D", ver=(2, None))])],
+    ]))
+    fams.append(("FamAddPacked", [
+        [S("T", [F("a", "u32"), F("b", "u32")], repr="C")],
+        [S("T", [F("a", "u32"), F("x", "u32", ver=(1, None)), F("b", "u32")], repr="C")],
+        [S("T", [F("a", "u32"), F("x", "u32", ver=(1, 1), removed="AbiRemoved"), F("b", "u32")], repr="C")],
+        [S("T", [F("a", "u32"), F("x", "u32", ver=(1, 1), removed="AbiRemoved"), F("b", "u32"), F("y", "u32", ver=(3, None))], repr="C")],
     ]))
     fams.append(("FamNested", [
         [S("Inner", [F("x", "u16"), F("y", "u16")], repr="C"), S("T", [F("i", "Inner"), F("l", "Vec<Inner>"), F("z", "u8")])],
@@ -614,9 +627,11 @@ def main():
                     g.register("%s::%s" % (mod, t.name), "%s_%s" % (mod, t.name), t, family=(fam, k))
             g.w("}")
     src = g.finish(lib_entries())
-    with open(OUT, "w") as f:
-        f.write(src)
-    print("wrote", OUT, len(src), "bytes;", len(g.reg) + len(LIB), "registry entries")
+    old = open(OUT).read() if os.path.exists(OUT) else None
+    if old != src:
+        with open(OUT, "w") as f:
+            f.write(src)
+    print("wrote" if old != src else "unchanged", OUT, len(src), "bytes;", len(g.reg) + len(LIB), "registry entries")
 
 
 if __name__ == "__main__":
